@@ -295,7 +295,7 @@ impl CommitPipeline {
 		// Keys are derived from `batch.entries` (single source of truth).
 		// Duplicate keys within a batch (e.g. from savepoint history) are
 		// harmless: oracle.check/publish are idempotent on the same key.
-		let (processed_batch, allocated_seq): (Batch, u64) = {
+		let (processed_batch, allocated_seq, replaced_stamps): (Batch, u64, Vec<Option<u64>>) = {
 			let _guard = self.write_mutex.lock();
 
 			// Validate against the oracle. No state has changed yet; on
@@ -315,7 +315,7 @@ impl CommitPipeline {
 			// txn's snapshot). With this clamp, `kept_since` can never advance past
 			// the committing txn's own snapshot — regardless of caller hygiene.
 			let oldest_active = self.env.oldest_active_start_seq().min(start_seq);
-			self.oracle.publish(
+			let replaced_stamps = self.oracle.publish(
 				batch.entries.iter().map(|e| e.key.as_slice()),
 				seq_num,
 				count,
@@ -331,13 +331,17 @@ impl CommitPipeline {
 
 			// WAL + VLog (serialized under lock).
 			match self.env.write(&batch, seq_num, sync) {
-				Ok(processed) => (processed, seq_num),
+				Ok(processed) => (processed, seq_num, replaced_stamps),
 				Err(e) => {
 					// WAL failed AFTER oracle.publish. Roll back the entries
 					// we stamped; the seq-match guard leaves concurrent
 					// overwriters untouched.
 					let stamp = seq_num + count - 1;
-					self.oracle.rollback(batch.entries.iter().map(|e| e.key.as_slice()), stamp);
+					self.oracle.rollback_restoring(
+						batch.entries.iter().map(|e| e.key.as_slice()),
+						stamp,
+						&replaced_stamps,
+					);
 					// The batch is in `pending` and was never marked applied.
 					// Order matters: complete with Err FIRST, then mark_applied,
 					// so a concurrent publish() can't dequeue and call
@@ -393,7 +397,11 @@ impl CommitPipeline {
 			// commits don't false-abort against a ghost stamp.
 			let count = batch.count() as u64;
 			let stamp = allocated_seq + count - 1;
-			self.oracle.rollback(batch.entries.iter().map(|e| e.key.as_slice()), stamp);
+			self.oracle.rollback_restoring(
+				batch.entries.iter().map(|e| e.key.as_slice()),
+				stamp,
+				&replaced_stamps,
+			);
 
 			// Order matters: complete with Err FIRST, then mark_applied below.
 			// Otherwise a concurrent publish() could dequeue the (already
